@@ -320,18 +320,27 @@ func BuildCte(query *Query, expr *sqlparser.With) error {
 	query.data = data
 	for _, cte := range expr.CTEs {
 		copy := *cte
-		query.data[copy.ID.String()] = CteEvaluation(func() (any, error) {
+		var evaluate CteEvaluation
+		evaluate = func() (any, error) {
+			// while the CTE is being evaluated its name stands for an error: a CTE that refers to
+			// itself, directly or through another one, would otherwise recurse until the stack overflows
+			data[copy.ID.String()] = CteEvaluation(func() (any, error) {
+				return nil, EXPECTATION_FAILED.Extend(fmt.Sprintf("the CTE %s refers to itself", copy.ID.String()))
+			})
 			query, err := Prepare(query.data, copy.Subquery, query.options)
 			if err != nil {
+				data[copy.ID.String()] = evaluate
 				return nil, err
 			}
 			rs, err := query.execAndPostProcess()
 			if err != nil {
+				data[copy.ID.String()] = evaluate
 				return nil, err
 			}
 			query.data[copy.ID.String()] = rs
 			return rs, nil
-		})
+		}
+		query.data[copy.ID.String()] = evaluate
 	}
 	return nil
 }
